@@ -6,7 +6,7 @@ From Coq Require Import String ZArith List Bool.
 From V Require Import Base.Int Base.IO Spec.Gregorian Model.TimeDelta Model.DateTime Model.C03 Proofs.C06 Proofs.C03.
 From V Require Model.Date Model.Time Proofs.C03Headroom Proofs.C03Zone Proofs.C03Nth.
 From V Require Import Proofs.C03Ops Proofs.C03Adapt.
-From V Require Judge.C03 Proofs.C03Holds Proofs.C03HoldsAr Proofs.C03HoldsNth.
+From V Require Judge.C03 Proofs.C03Holds Proofs.C03HoldsAr Proofs.C03HoldsNth Proofs.C03HoldsZdays.
 Import ListNotations.
 Open Scope Z_scope.
 
@@ -725,3 +725,27 @@ Example C03_holds_nth_inhabited :
     = VTup [VSome (Proofs.C03Holds.vd 2024 46); VSome (Proofs.C03Holds.vd 2024 39); VNone].
 Proof. exact Proofs.C03HoldsNth.nth_examples. Qed.
 Print Assumptions C03_holds_nth_inhabited.
+
+(* ---- ... and the two remaining arithmetic ops, Days on a zone-aware value (ar.zdays, ar.opzdays): zero days is
+        the value itself, a target instant outside the range is refused, a target whose local date is
+        representable is exact, and in the headroom class the judge accepts both outcomes (C03_zone_days_exact says
+        which one the model takes).  The case C03_zone_days_exact leaves open - subtracting zero days from a value
+        whose local reading lies in the headroom: checked_sub_days has no zero guard - is the identity: ---- *)
+Theorem C03_zone_sub_days_zero : forall u off, nvalid u -> -86400 < off < 86400 ->
+  dz_checked_sub_days (mk_dtz u off) 0 = Val (Some (mk_dtz u off)).
+Proof. exact Proofs.C03HoldsZdays.sub_days_zero. Qed.
+Print Assumptions C03_zone_sub_days_zero.
+(* all 40 ar ops, arbitrary argument lists (supersedes C03_holds_arith, kept under its name) *)
+Theorem C03_holds_arith_all : forall op args,
+  In op (Proofs.C03HoldsAr.arith_ops ++ [B"ar.zdays"; B"ar.opzdays"]) ->
+  Judge.C03.judge op args (run op args) <> JSkip -> Judge.C03.judge op args (run op args) = JOk.
+Proof. exact Proofs.C03HoldsZdays.holds_arith_all. Qed.
+Print Assumptions C03_holds_arith_all.
+Example C03_holds_zdays_inhabited :
+  dz_checked_sub_days (mk_dtz NDT_MAX 7200) 0 = Val (Some (mk_dtz NDT_MAX 7200)) /\
+  Judge.C03.judge B"ar.zdays" [VTup [VInt 262142; VInt 365; VInt 86399; VInt 999999999; VInt 7200]; VInt (-1); VInt 0]
+    (run B"ar.zdays" [VTup [VInt 262142; VInt 365; VInt 86399; VInt 999999999; VInt 7200]; VInt (-1); VInt 0]) = JOk /\
+  Judge.C03.judge B"ar.opzdays" [VTup [VInt 262142; VInt 365; VInt 86399; VInt 999999999; VInt 7200]; VInt 1; VInt 1]
+    (run B"ar.opzdays" [VTup [VInt 262142; VInt 365; VInt 86399; VInt 999999999; VInt 7200]; VInt 1; VInt 1]) = JOk.
+Proof. exact Proofs.C03HoldsZdays.zdays_examples. Qed.
+Print Assumptions C03_holds_zdays_inhabited.
